@@ -66,6 +66,8 @@ TRACE_SALT_T = dict(TRACE_SALT, name="trace_salt_t", gen_args=["--mode", "salt",
 
 TOTAL_Q = R("total_q", "total_q.cfg", expect_ops=["replace_subject", "compress_subject", "add_assertion_envelope", "obs_lookup", "add_salt"])
 
+REGISTRY_Q = dict(name="registry_q", module="Registry", cfg="Registry.cfg", rounds=1, replayer="regreplay", workers=4,
+                  expect_ops=["kv_insert", "fn_insert", "pm_insert", "make_context"])
 LOCKS_Q = dict(name="locks_q", kind="locks", driver="lockcheck", threads=3, calls=2, rounds=40, stress_threads=16, stress_calls=3)
 LOCKS_T = dict(name="locks_t", kind="locks", driver="lockcheck", threads=4, calls=2, rounds=300, stress_threads=16, stress_calls=4, timeout=3000)
 
@@ -162,9 +164,9 @@ PLAN = {
         quick=[ATTACH_Q],
     ),
     "C20": dict(
-        rule="lock programs (Once gates, mutex acquire/release, dcbor tag-lock blips) extracted from the hooks of the current build for 11 call kinds (format, format_flat, tree_format, diagnostic_annotated, hex, register_tags, known-value / function / parameter lookups, encode, ur); TLC explores every interleaving of 3 threads x 2 calls (thorough: 4 x 2) over the distinct programs, all threads racing on first use: deadlock freedom, once-only initialisation, no lock held at return, termination under fairness; real stress runs of 2..16 racing threads in fresh processes with a 20 s watchdog, every result compared with the single-thread text, recorded lock events validated by TLC against LocksTrace",
-        quick=[LOCKS_Q],
-        thorough=[LOCKS_T],
+        rule="(1) lock programs (Once gates, mutex acquire/release, dcbor tag-lock blips) extracted from the hooks of the current build for 11 call kinds (format, format_flat, tree_format, diagnostic_annotated, hex, register_tags, known-value / function / parameter lookups, encode, ur); TLC explores every interleaving of 3 threads x 2 calls (thorough: 4 x 2) over the distinct programs, all threads racing on first use: deadlock freedom, once-only initialisation, no lock held at return, termination under fairness; real stress runs of 2..16 racing threads in fresh processes with a 20 s watchdog, every result compared with the single-thread text, recorded lock events validated by TLC against LocksTrace; (2) the registries as a sequential state machine (Registry.tla: KnownValuesStore as two maps, functions / parameters stores, a format context as a copy of the stores with summarizers copied again at registration): every insert / make-context sequence of length <= 4 over 2 codes x 2 names, each followed by the full projection through the query API and format() / tree_format() of probe envelopes",
+        quick=[LOCKS_Q, REGISTRY_Q],
+        thorough=[LOCKS_T, REGISTRY_Q],
         assumptions=["A-tags: code run by dcbor while it holds its tag-registry lock never calls back into a bc-envelope function that takes a registry lock", "the harness builds the crate with its multithreaded feature; the default (Rc) build is covered by the repository suite only"],
     ),
     "C18": dict(
